@@ -404,6 +404,11 @@ func runC19(c *engine.Ctx) {
 	tomb1 := p.Draw(2, "cfg:tombstone") == 1
 	reverseFields := p.Draw(2, "cfg:reverse-signed-fields") == 1
 	emptyContainers := p.Draw(2, "cfg:empty-containers-in-shared-wrappers") == 1
+	// cold start: nothing of go-pipeline's parse/sign/verify code has run in this process when the tasks
+	// start (no shared pipeline is prepared in the main goroutine) and every task's program begins with the
+	// same call, so state that is initialised on first use is initialised under concurrency. Only the very
+	// first run of a process is really cold; the driver gives such runs processes of their own.
+	cold := p.Draw(3, "cfg:cold-start") == 2
 	w := &signWorld{c: c, features: map[string]bool{}, yamlSafe: true, rich: false}
 	// plugin sources never seen before in this process: a package-level cache keyed by source is
 	// only written (and so only races with readers) the first time a source is met
@@ -439,6 +444,9 @@ func runC19(c *engine.Ctx) {
 		}
 		sh.m2 = ordered.NewMap[string, any](0)
 		sh.m.Range(func(k string, v any) error { sh.m2.Set(k, v); return nil })
+		if cold {
+			return sh
+		}
 		sh.pl, _ = parseDoc(c, "C19.panic", ssrc)
 		if sh.pl == nil {
 			return nil
@@ -481,7 +489,7 @@ func runC19(c *engine.Ctx) {
 	}
 	sh := buildShared()
 	dumpShared := func(x *c19Shared) string {
-		return stateDump.Sdump([]any{x.m, x.m2, x.plugins}) + hashBytes([]byte(stateDump.Sdump(x.pl))) + hashBytes([]byte(stateDump.Sdump(x.wrapped)))
+		return stateDump.Sdump([]any{x.m, x.m2, x.plugins, x.penv}) + hashBytes([]byte(stateDump.Sdump(x.pl))) + hashBytes([]byte(stateDump.Sdump(x.wrapped)))
 	}
 
 	// ---- tasks and their programs
@@ -492,6 +500,15 @@ func runC19(c *engine.Ctx) {
 	private := []string{"interpolate", "json", "yaml", "sign", "verify", "matrix", "ownmap", "ownmap", "keygen", "shuffle-fields"}
 	shared := []string{"sh.get", "sh.range", "sh.equal", "sh.tomap", "sh.tomaprec", "sh.mapjson", "sh.mapyaml", "sh.pljson", "sh.plyaml", "sh.fullsource", "sh.verify", "sh.sign", "sh.wverify", "sh.wsign"}
 	mode := p.Draw(3, "cfg:mix") // 0 mixed, 1 mostly shared, 2 mostly private
+	coldOp := c19Op{}
+	if cold {
+		// only the shared ordered map exists; calls on a shared pipeline are not available
+		shared = []string{"sh.get", "sh.range", "sh.equal", "sh.tomap", "sh.tomaprec", "sh.mapjson", "sh.mapyaml"}
+		all := append(append([]string{}, shared...), private...)
+		coldOp = c19Op{kind: all[p.Draw(len(all), "cfg:cold-op")], arg: p.Draw(64, "cfg:cold-arg")}
+		c.Probe("cold_start_runs")
+		c.Tag("cold_start_first_call", coldOp.kind)
+	}
 	build := func() []*c19Task {
 		var tasks []*c19Task
 		return tasks
@@ -512,7 +529,14 @@ func runC19(c *engine.Ctx) {
 		t.stepDoc = st.ToJSON(nil)
 		t.perm = pipeline.MatrixPermutation{"": []string{"a", "b"}[p.Draw(2, "t:perm")]}
 		n := 3 + p.Draw(8, "t:nops")
-		t.ops = append(t.ops, c19Op{kind: "parse"})
+		if cold && strings.HasPrefix(coldOp.kind, "sh.") {
+			t.ops = append(t.ops, coldOp, c19Op{kind: "parse"})
+			sharedCalls++
+		} else if cold {
+			t.ops = append(t.ops, c19Op{kind: "parse"}, coldOp)
+		} else {
+			t.ops = append(t.ops, c19Op{kind: "parse"})
+		}
 		for j := 0; j < n; j++ {
 			useShared := p.Draw(3, "t:shared?") == 0
 			if mode == 1 {
